@@ -270,7 +270,7 @@ func execCase(c Case) (res vt.Result) {
 		cols[i] = models.Collection{UserId: "u", Id: fmt.Sprintf("col%d", i), UserPlan: plan, IndexSchema: models.IndexSchema{"n": {Type: models.IndexTypeInteger},
 			"v": {Type: models.IndexTypeVectorVamana, VectorVamana: &models.IndexVectorVamanaParameters{VectorSize: 2, DistanceMetric: models.DistanceEuclidean, SearchSize: 75, DegreeBound: 64, Alpha: 1.2}}}}
 		for j := 0; j < c.Shards; j++ {
-			cols[i].ShardIds = append(cols[i].ShardIds, fmt.Sprintf("shard-%d-%d", i, j))
+			cols[i].ShardIds = append(cols[i].ShardIds, fmt.Sprintf("00000000-0000-4000-8000-%04d%08d", i, j)) // shard ids are UUIDs, as the node creates them
 		}
 	}
 	if c.Ghost {
